@@ -92,6 +92,9 @@ def _check_read(case):
     tag = f"readFramesAtTimes width={width} rate={rate} {kind}={L if isinstance(L, (list, tuple)) else order + ' over ' + str(ivs)} replace={repl}"
     if st == "exc":
         return 1, "X", None, [Viol("read-raised:" + type(fr).__name__, f"{tag}: {fr!r}")]
+    if not isinstance(fr, bytes):
+        return 1, "!", None, [Viol("read-result-not-bytes", f"{tag}: the result is a {type(fr).__name__}, documented (and relied upon as a hashable, immutable value: "
+                                                            f"Wav(frames).concatenate() grows a bytearray in place) is bytes")]
     if len(fr) % width:
         return 1, "!", None, [Viol("read-misaligned", f"{tag}: {len(fr)} bytes")]
     out = W.unpack(fr, width)
